@@ -151,21 +151,10 @@ Section TableOk.
   Variable c : config.
   Let p := c_ct c.
 
-  (* the time a job of that name must have (the epoch-preparation job is not tied to a duty) *)
-  Definition time_of (n : jname) : option Z :=
-    match n with
-    | JAtt s => Some (start_of_slot p s + c_att_delay c)%Z
-    | JProp s => Some (start_of_slot p s + c_prop_delay c)%Z
-    | JEarly s => Some (start_of_slot p s)
-    | JSync s => Some (sync_time c s)
-    | JPrep _ => None
-    end.
-
-  Definition canon_job (n : jname) (j : job) : Prop :=
-    j_name j = n /\ match time_of n with Some z => j_time j = z | None => True end.
-
-  Definition timed (t : table) : Prop := forall n j, tget t n = Some j -> canon_job n j.
-  Definition tbl_ok (t : table) : Prop := twf t /\ timed t.
+  Local Notation time_of := (C03_Spec.time_of c).
+  Local Notation canon_job := (C03_Spec.canon_job c).
+  Local Notation timed := (C03_Spec.timed c).
+  Local Notation tbl_ok := (C03_Spec.tbl_ok c).
 
   Definition extends (t t' : table) : Prop :=
     forall n j, tget t' n = Some j -> tget t n = Some j \/ canon_job n j.
@@ -349,11 +338,10 @@ Section NoTwice.
   Let spe := ct_spe (c_ct c).
   Hypothesis Hspe : 0 < ct_spe (c_ct c).
 
-  Definition att_slots (st : state) : list N := map fst (st_att_log st).
-  Definition prop_slots (st : state) : list N := map fst (st_prop_log st).
-
-  (* the uint64 slot arithmetic of the next three epochs does not wrap *)
-  Definition bounded (s : N) : Prop := (s / ct_spe (c_ct c) + 3) * ct_spe (c_ct c) < two64.
+  Local Notation bounded := (C03_Spec.bounded c).
+  Local Notation op_ok := (C03_Spec.op_ok c).
+  Local Notation ghost := (C03_Spec.ghost c).
+  Local Notation hist_ok := (C03_Spec.hist_ok shadowed c).
 
   Definition att_step (cur : N) (t t' : table) : Prop :=
     forall s, tget t' (JAtt s) <> None -> tget t (JAtt s) <> None \/ cur < s.
@@ -378,13 +366,13 @@ Section NoTwice.
     first_slot_of_epoch (c_ct c) (cur / ct_spe (c_ct c) + k) = (cur / ct_spe (c_ct c) + k) * ct_spe (c_ct c).
   Proof.
     intros cur k B K. unfold first_slot_of_epoch, mul64. apply wrap64_small.
-    unfold bounded in B. nia.
+    unfold C03_Spec.bounded in B. nia.
   Qed.
 
   Lemma bounded_add64 : forall cur k, bounded cur -> k <= 3 ->
     add64 (cur / ct_spe (c_ct c)) k = cur / ct_spe (c_ct c) + k.
   Proof.
-    intros cur k B K. unfold add64. apply wrap64_small. unfold bounded in B. nia.
+    intros cur k B K. unfold add64. apply wrap64_small. unfold C03_Spec.bounded in B. nia.
   Qed.
 
   Lemma in_epoch_cur_epoch : forall cur s, bounded cur ->
@@ -522,33 +510,6 @@ Section NoTwice.
       + rewrite tget_tremove in H. cbn [jname_eqb] in H.
         destruct (s =? st_cur st); [contradiction|]. apply p3. right. exact H.
   Qed.
-  (* ----- the discipline of a history ----- *)
-  Definition op_ok (g : N) (st : state) (o : op) : Prop :=
-    match o with
-    | Advance s => st_cur st <= s /\ bounded s
-    | SetEnv _ => True
-    | Start => True
-    | Tick => (Z.of_N (st_cur st / ct_spe (c_ct c)) <= st_tick st)%Z       (* a repeated tick: guarded *)
-              \/ (g < st_cur st / ct_spe (c_ct c) /\ st_cur st = (st_cur st / ct_spe (c_ct c)) * ct_spe (c_ct c))
-    | Head _ _ _ => True
-    | Fire (JAtt s) _ | Fire (JProp s) _ | Fire (JEarly s) _ => s <= st_cur st
-    | Fire (JPrep e) _ => st_cur st / ct_spe (c_ct c) < e /\ e * ct_spe (c_ct c) < two64
-    | Fire (JSync _) _ => True
-    | RefreshAtt _ => True
-    | RefreshProp ep => ep = st_cur st / ct_spe (c_ct c)
-    | SchedAtt _ _ | SchedProp _ _ | SchedSync _ _ | RefreshSync _ => False
-    end.
-
-  (* ghost: the epoch in which the running process started *)
-  Definition ghost (g : N) (st : state) (o : op) : N :=
-    match o with Start => st_cur st / ct_spe (c_ct c) | _ => g end.
-
-  Fixpoint hist_ok (g : N) (st : state) (ops : list op) : Prop :=
-    match ops with
-    | [] => True
-    | o :: ops' => op_ok g st o /\ hist_ok (ghost g st o) (step shadowed c st o) ops'
-    end.
-
   Fixpoint ghost_run (g : N) (st : state) (ops : list op) : N :=
     match ops with
     | [] => g
@@ -716,7 +677,7 @@ Section NoTwice.
   Lemma inv_fire : forall g st n h, inv g st -> op_ok g st (Fire n h) -> inv g (fire c st n h).
   Proof.
     intros g st n h I Hok. unfold fire. destruct (tget (st_jobs st) n) eqn:G; [|exact I].
-    destruct n as [s|s|s|e|s]; cbn [op_ok] in Hok.
+    destruct n as [s|s|s|e|s]; cbn [C03_Spec.op_ok] in Hok.
     - apply inv_run_att; assumption.
     - apply inv_run_prop; assumption.
     - assert (I1 : inv g (set_jobs st (tremove (st_jobs st) (JEarly s)))).
@@ -736,7 +697,7 @@ Section NoTwice.
 
   Theorem inv_step : forall g st o, inv g st -> op_ok g st o -> inv (ghost g st o) (step shadowed c st o).
   Proof.
-    intros g st o I Hok. destruct o; cbn [step ghost]; cbn [op_ok] in Hok; try contradiction.
+    intros g st o I Hok. destruct o; cbn [step C03_Spec.ghost]; cbn [C03_Spec.op_ok] in Hok; try contradiction.
     - destruct Hok. apply inv_advance; assumption.
     - apply (inv_update g st); try reflexivity; [exact I | apply att_step_refl | apply prop_step_refl].
     - apply inv_start with (g := g). exact I.
@@ -777,8 +738,8 @@ Section NoTwice.
 
   Lemma op_ok_b_sound : forall g st o, op_ok_b g st o = true -> op_ok g st o.
   Proof.
-    intros g st o H. destruct o; cbn [op_ok_b op_ok] in *; try exact I; try discriminate.
-    - unfold bounded, bounded_b in *. lia.
+    intros g st o H. destruct o; cbn [op_ok_b C03_Spec.op_ok] in *; try exact I; try discriminate.
+    - unfold C03_Spec.bounded, bounded_b in *. lia.
     - lia.
     - destruct n; try exact I; lia.
     - lia.
@@ -819,13 +780,6 @@ End NoTwice.
 Section Restart.
   Variable shadowed : bool.
   Variable c : config.
-
-  Definition later_name (cur : N) (n : jname) : Prop :=
-    match n with
-    | JAtt s | JProp s | JEarly s | JSync s => cur < s
-    | JPrep _ => False
-    end.
-  Definition later (cur : N) (t : table) : Prop := forall n j, tget t n = Some j -> later_name cur n.
 
   Lemma due_true_later : forall cur s, due cur true s = true -> cur < s.
   Proof.
@@ -907,8 +861,6 @@ Section TickOnce.
   Proof.
     intros st. destruct (tick_sets st) as [H1 H2]. apply tick_noop. rewrite H2. exact H1.
   Qed.
-
-  Definition not_start (o : op) : Prop := match o with Start => False | _ => True end.
 
   Local Opaque sched_att sched_prop sched_sync refresh_att refresh_prop refresh_sync tsched tremove
         handle_altair_fork_epoch.
